@@ -85,8 +85,23 @@ def gen_module(rng, params):
                         first = False
                 j += 1
             i = j
+    nameless = []
+    if params.get("nameless_p") and len([f for f in funcs.values() if f["name"] != "main"]) >= 2 and rng.random() < params["nameless_p"]:
+        # a stripped module: two functions have no name at all (no
+        # functionNames entry, no symbol on their entry blocks); the library
+        # calls both "<unknown>" - which is a display name, not an identity
+        nameless = rng.sample(sorted(f for f in funcs if funcs[f]["name"] != "main"), 2)
+        for fid in nameless:
+            funcs[fid] = {"name": "<unknown>", "nameless": True}
+            for b in blocks:
+                if b.get("func") == fid and b.get("entry"):
+                    for nm in b["labels"]:
+                        if nm in code_labels:
+                            code_labels.remove(nm)
+                    b["labels"] = []
+                    b["end_labels"] = []
     desc["funcs"] = funcs
-    entry_labels = [f["name"] for f in funcs.values()]
+    entry_labels = [f["name"] for f in funcs.values() if not f.get("nameless")]
     if len(funcs) >= 2 and rng.random() < params.get("shared_block_p", 0.0):
         # a shared tail: the last block of one function is also listed in
         # the functionBlocks of another (which function a block 'belongs to'
@@ -311,6 +326,9 @@ def gen_module(rng, params):
     code_blocks = [b for b in blocks if b["kind"] == "code"]
     if rng.random() < 0.5:
         desc["entry_point"] = rng.choice(code_blocks)["id"]
+    if nameless:
+        # ... and the program starts in one of them
+        desc["entry_point"] = next(b["id"] for b in blocks if b.get("func") == nameless[0] and b.get("entry"))
     if fmt == "elf" and rng.random() < params.get("dt_p", 0.3):
         # ELF DT_INIT / DT_FINI (elfDynamicInit / elfDynamicFini aux data)
         if rng.random() < 0.7:
